@@ -10,7 +10,7 @@ Open Scope Z_scope.
     that carries the snapshot of this store *)
 Theorem import_export : forall enc_snap dec_snap s,
   snap_carried enc_snap dec_snap (snapshot_of s) ->
-  store_wf s -> epoch_clean s = true -> names_max_id (snapshot_of s) = false ->
+  store_wf s -> epoch_clean s = true ->
   exists c, import dec_snap (export enc_snap s) = IOk c /\ dump c latest = dump s latest
             /\ dump c (s_epoch c) = dump s latest.
 Proof. exact import_export_l. Qed.
@@ -22,7 +22,7 @@ Proof. exact snap_wf_carried. Qed.
 Print Assumptions snapshot_codec_roundtrip.
 
 Theorem import_export_real : forall s,
-  snap_wf (snapshot_of s) -> store_wf s -> epoch_clean s = true -> names_max_id (snapshot_of s) = false ->
+  snap_wf (snapshot_of s) -> store_wf s -> epoch_clean s = true ->
   exists c, import dec_snapshot (export enc_snapshot s) = IOk c /\ dump c latest = dump s latest
             /\ dump c (s_epoch c) = dump s latest.
 Proof. exact import_export_real_l. Qed.
@@ -37,7 +37,7 @@ Print Assumptions api_store_wellformed.
 
 Theorem api_store_copies : forall os,
   let s := fst (run_store os) in
-  k07_1 s = false -> snap_wf (snapshot_of s) -> names_max_id (snapshot_of s) = false ->
+  k07_1 s = false -> snap_wf (snapshot_of s) ->
   (exists c, import dec_snapshot (export enc_snapshot s) = IOk c /\ dump c latest = dump s latest
              /\ dump c (s_epoch c) = dump s latest)
   /\ dump (to_memory s) latest = dump s latest.
@@ -72,16 +72,23 @@ Theorem save_open_copy : forall crc enc dec, crc_u32 crc -> forall cfg s,
 Proof. exact save_open_l. Qed.
 Print Assumptions save_open_copy.
 
-(** for every byte string: an error, the overflow panic of class K3, or the complete store of
-    the decoded snapshot — never a partially filled database *)
+(** for every byte string: an error, or the complete store of a snapshot of which the bytes are
+    exactly the encoding — never a panic, never a partially filled database, never bytes left over *)
 Theorem import_total : forall (dec_snap : bytes -> option (snapshot * nat)) bs,
   match import dec_snap bs with
-  | IErr => dec_snap bs = None \/ exists sn n, dec_snap bs = Some (sn, n) /\ sn_version sn <> 1
-  | IPanic => exists sn n, dec_snap bs = Some (sn, n) /\ k07_3 sn = true
-  | IOk c => exists sn n, dec_snap bs = Some (sn, n) /\ sn_version sn = 1 /\ k07_3 sn = false /\ c = build sn
+  | IErr => dec_snap bs = None
+            \/ exists sn n, dec_snap bs = Some (sn, n) /\ ((n < length bs)%nat \/ sn_version sn <> 1)
+  | IPanic => False
+  | IOk c => exists sn n, dec_snap bs = Some (sn, n) /\ (length bs <= n)%nat /\ sn_version sn = 1 /\ c = build sn
   end.
 Proof. exact import_total_l. Qed.
 Print Assumptions import_total.
+
+(** bytes behind a valid snapshot are rejected (for every carried snapshot and every junk) *)
+Theorem trailing_bytes_rejected : forall enc_snap dec_snap sn junk,
+  snap_carried enc_snap dec_snap sn -> junk <> [] -> import dec_snap (enc_snap sn ++ junk) = IErr.
+Proof. exact trailing_rejected_l. Qed.
+Print Assumptions trailing_bytes_rejected.
 
 (** C07-K1: entities stamped with an epoch later than the store's own are not copied *)
 Theorem later_epoch_entities_not_copied_refuted : exists os,
@@ -91,28 +98,26 @@ Theorem later_epoch_entities_not_copied_refuted : exists os,
 Proof. exists w07_1. exact w07_1_l. Qed.
 Print Assumptions later_epoch_entities_not_copied_refuted.
 
-(** C07-K2: bytes behind a valid snapshot are accepted (for every carried snapshot and every junk) *)
-Theorem trailing_bytes_accepted : forall enc_snap dec_snap sn junk,
-  snap_carried enc_snap dec_snap sn ->
-  import dec_snap (enc_snap sn ++ junk) = import dec_snap (enc_snap sn).
-Proof. exact trailing_accepted_l. Qed.
-Print Assumptions trailing_bytes_accepted.
+(** C07-K2 (repaired by 0d0a061): the code before it accepted bytes behind a valid snapshot; the
+    same bytes are an error now *)
+Theorem trailing_bytes_accepted_pre_refuted : exists bs sn n c,
+  dec_snapshot bs = Some (sn, n) /\ k07_2 bs n = true /\ import_pre dec_snapshot bs = IOk c
+  /\ import dec_snapshot bs = IErr.
+Proof. exists w07_2, (mkSnap 1 [] []), 3%nat, empty_store. destruct w07_2_pre_l as (A & B & C). split; [exact A|]. split; [exact B|]. split; [exact C|exact w07_2_now_l]. Qed.
+Print Assumptions trailing_bytes_accepted_pre_refuted.
 
-Theorem trailing_bytes_accepted_refuted : exists bs sn n c,
-  dec_snapshot bs = Some (sn, n) /\ k07_2 bs n = true /\ import dec_snapshot bs = IOk c.
-Proof. exists w07_2, (mkSnap 1 [] []), 3%nat, empty_store. exact w07_2_l. Qed.
-Print Assumptions trailing_bytes_accepted_refuted.
-
-(** C07-K3: a snapshot that names the identifier u64::MAX makes import panic *)
-Theorem max_id_import_panics_refuted : exists bs sn,
-  import dec_snapshot bs = IPanic /\ dec_snapshot bs = Some (sn, length bs) /\ k07_3 sn = true.
-Proof. exists w07_3, w07_3_snap. exact w07_3_l. Qed.
-Print Assumptions max_id_import_panics_refuted.
+(** C07-K3 (repaired by 1b18953): the code before it panicked on a snapshot naming the identifier
+    u64::MAX; it is imported now (the id counter saturates) *)
+Theorem max_id_import_panics_pre_refuted : exists bs sn,
+  import_pre dec_snapshot bs = IPanic /\ dec_snapshot bs = Some (sn, length bs) /\ k07_3 sn = true
+  /\ import dec_snapshot bs = IOk (build sn).
+Proof. exists w07_3, w07_3_snap. destruct w07_3_pre_l as (A & B & C). split; [exact A|]. split; [exact B|]. split; [exact C|exact (proj1 w07_3_now_l)]. Qed.
+Print Assumptions max_id_import_panics_pre_refuted.
 
 (** non-vacuity: a store with deleted entities, properties and labels satisfies the premises *)
 Example copy_premises_hold :
   let s := fst (run_store [OCreateNodeProps [sA; sB] [(sK, vOne)]; OCreateNode [sC]; OCreateEdgeProps 0 1 sK [(sK, vOne)]; ODeleteNode 1; OCreateNode []]) in
-  k07_1 s = false /\ names_max_id (snapshot_of s) = false
+  k07_1 s = false
   /\ zlist_eqb (enc_snapshot (snapshot_of s)) (enc_snapshot (snapshot_of s)) = true
   /\ dsnap_eqb (dec_snapshot (enc_snapshot (snapshot_of s))) (Some (snapshot_of s, length (enc_snapshot (snapshot_of s)))) = true.
 Proof. cbv zeta. repeat split; vm_compute; reflexivity. Qed.
